@@ -2,7 +2,7 @@
 //! c08_query.rs).  Request codes: coq/Run/C08.v.
 use crate::out::{guard, Out};
 use crate::rng::Rng;
-use crate::storegen::{apply, gen_history, new_store, GenCfg};
+use crate::storegen::{gen_history, new_store, GenCfg};
 use crate::sx::{a, b, l, nats, Sx};
 use stam::*;
 
@@ -81,7 +81,7 @@ impl Ctx {
             5 => {
                 let mut store = new_store();
                 for op in req.nth(1).list() {
-                    let _ = apply(&mut store, op);
+                    apply_c08(&mut store, op);
                 }
                 let mut outs = Vec::new();
                 let mut nt = false;
@@ -103,8 +103,8 @@ impl Ctx {
                 let mut sa = new_store();
                 let mut sb = new_store();
                 for op in req.nth(1).list() {
-                    let _ = apply(&mut sa, op);
-                    let _ = apply(&mut sb, op);
+                    apply_c08(&mut sa, op);
+                    apply_c08(&mut sb, op);
                 }
                 let n0 = sa.annotations_len();
                 let outs = exec_add(&mut sa, &mut sb, req.nth(2));
@@ -115,8 +115,8 @@ impl Ctx {
                 let mut sa = new_store();
                 let mut sb = new_store();
                 for op in req.nth(1).list() {
-                    let _ = apply(&mut sa, op);
-                    let _ = apply(&mut sb, op);
+                    apply_c08(&mut sa, op);
+                    apply_c08(&mut sb, op);
                 }
                 let n0 = sb.annotations().count();
                 let sub = q_of(req.nth(3));
@@ -132,7 +132,7 @@ impl Ctx {
 fn text_pool(ops: &[Sx]) -> Vec<Vec<i64>> {
     let mut store = new_store();
     for op in ops {
-        let _ = apply(&mut store, op);
+        apply_c08(&mut store, op);
     }
     let mut pool = Vec::new();
     let _ = guard(|| {
@@ -162,7 +162,7 @@ fn text_pool(ops: &[Sx]) -> Vec<Vec<i64>> {
 fn discontinuous_ops(ops: &[Sx], rng: &mut Rng) -> Vec<Sx> {
     let mut store = new_store();
     for op in ops {
-        let _ = apply(&mut store, op);
+        apply_c08(&mut store, op);
     }
     let cand: Vec<(usize, usize)> = store.resources().filter(|r| r.textlen() >= 4).map(|r| (r.handle().as_usize(), r.textlen())).collect();
     if cand.is_empty() {
@@ -187,6 +187,56 @@ fn discontinuous_ops(ops: &[Sx], rng: &mut Rng) -> Vec<Sx> {
         }
     }
     out
+}
+
+/// annotations on text with upper-case letters, ASCII and not (positions 4 'B' and 7 'É' of the C08
+/// alphabet), and TEXT AS NOCASE queries for them with the literal in another case, as first and
+/// (through the orderings) as later constraint of TEXT and ANNOTATION queries
+fn nocase_shapes(ops: &[Sx], rng: &mut Rng) -> (Vec<Sx>, Vec<Q>) {
+    let mut store = new_store();
+    for op in ops {
+        apply_c08(&mut store, op);
+    }
+    let mut more = Vec::new();
+    let mut cand: Vec<(usize, i64, usize)> = store
+        .resources()
+        .filter(|r| r.textlen() >= 8 && r.id().map(|i| i.starts_with('r')).unwrap_or(false))
+        .map(|r| (r.handle().as_usize(), r.id().unwrap()[1..].parse::<i64>().unwrap_or(0), r.textlen()))
+        .collect();
+    if cand.is_empty() {
+        // a fresh resource, long enough (token 6 is not used by the history generator)
+        let len = 9 + rng.below(8);
+        more.push(l(vec![a(0), a(6), a(len as i64)]));
+        cand.push((store.resources_len(), 6, len));
+    }
+    let (h, tok, len) = *rng.pick(&cand);
+    let rr = l(vec![a(1), a(h as i64)]);
+    let mut ranges = Vec::new();
+    for _ in 0..3 {
+        let b = 3 + rng.below(5);
+        let e = (b.max(7) + 1 + rng.below(2)).min(len);
+        let b = b.min(e);
+        ranges.push((b, e));
+        more.push(l(vec![a(3), a(-1), l(vec![a(0), rr.clone(), l(vec![a(0), a(b as i64)]), l(vec![a(0), a(e as i64)])]), l(vec![])]));
+    }
+    let flip = |c: i64, up: bool| -> i64 {
+        match (c, up) {
+            (97..=122, true) => c - 32,
+            (65..=90, false) => c + 32,
+            (233, true) => 201,
+            (201, false) => 233,
+            _ => c,
+        }
+    };
+    let mut qs = Vec::new();
+    for (b, e) in ranges {
+        let up = rng.chance(1, 2);
+        let lit: Vec<i64> = text_cps(b, e).into_iter().map(|c| flip(c, up)).collect();
+        let rt = if rng.chance(2, 3) { 5 } else { 0 };
+        let cs = vec![Cst::Res(VRef::Id(tok), false), Cst::Text(lit, true)];
+        qs.push(Q { name: 0, rt, cs, lim: None, opt: false, sub: None });
+    }
+    (more, qs)
 }
 
 /// RELATION ?outer OP first (and, through the orderings, later) in a sub-query, ?outer bound to the
@@ -252,11 +302,17 @@ pub fn generate_queries(out: &mut Out, ctx: &Ctx, tier: &str, seed: u64) {
             let more = discontinuous_ops(&ops, &mut rng);
             ops.extend(more);
         }
+        let mut shaped: Vec<Q> = Vec::new();
+        if i % 3 == 2 {
+            let (more, qs) = nocase_shapes(&ops, &mut rng);
+            ops.extend(more);
+            shaped = qs;
+        }
         cfg.pool = text_pool(&ops);
         {
             let mut store = new_store();
             for op in &ops {
-                let _ = apply(&mut store, op);
+                apply_c08(&mut store, op);
             }
             cfg.facts = store_facts(&store, &mut rng);
         }
@@ -275,7 +331,7 @@ pub fn generate_queries(out: &mut Out, ctx: &Ctx, tier: &str, seed: u64) {
             {
                 let mut store = new_store();
                 for op in &ops {
-                    let _ = apply(&mut store, op);
+                    apply_c08(&mut store, op);
                 }
                 let rows = eval_prog(&store, &q);
                 let nonempty = rows.list().iter().any(|r| !r.list().is_empty());
@@ -315,6 +371,12 @@ pub fn generate_queries(out: &mut Out, ctx: &Ctx, tier: &str, seed: u64) {
                 entries.push(qentry(&o));
             }
         }
+        for q in &shaped {
+            out.count("select_nocase_capitals");
+            for o in orderings(q) {
+                entries.push(qentry(&o));
+            }
+        }
         if discontinuous {
             for q in relation_queries(&mut rng) {
                 out.count("select_relation_to_annotation");
@@ -337,18 +399,41 @@ pub fn generate_queries(out: &mut Out, ctx: &Ctx, tier: &str, seed: u64) {
         }
         if i % 4 == 0 {
             // DELETE ANNOTATION ?x { SELECT ANNOTATION ?x WHERE ... }
-            let dcfg = QCfg { pool: cfg.pool.clone(), facts: cfg.facts.clone(), rts: vec![0], texts: false, unions: true, limits: true, max_depth: 0 };
+            // ... also over nested selects, the deleted variable bound by the outer or by the inner one
+            let dcfg = QCfg { pool: cfg.pool.clone(), facts: cfg.facts.clone(), rts: vec![0], texts: true, unions: true, limits: true, max_depth: 1 };
             let mut outer = Vec::new();
             let sub = gen_query(&mut rng, &dcfg, &mut outer, 0);
-            let req = l(vec![a(7), l(ops.clone()), a(sub.name), q_sx(&sub), a(0)]);
+            let var = if sub.sub.is_some() && rng.chance(2, 3) { 1 } else { 0 };
+            if var == 1 {
+                out.count("delete_inner_variable");
+            }
+            let req = l(vec![a(7), l(ops.clone()), a(var), q_sx(&sub), a(0)]);
             let (i2, o, nt) = ctx.exec(&req);
             out.case(&i2, &o, nt, &req);
             out.count("delete");
         }
         if i % 4 == 1 {
-            let acfg = QCfg { pool: cfg.pool.clone(), facts: cfg.facts.clone(), rts: vec![0, 0, 1, 2, 3, 4], texts: false, unions: false, limits: true, max_depth: 1 };
+            // with an OFFSET the target is mostly a text selection or an annotation
+            let with_off = rng.chance(1, 2);
+            let acfg = QCfg { pool: cfg.pool.clone(), facts: cfg.facts.clone(), rts: if with_off { vec![5, 5, 5, 0, 0, 3] } else { vec![0, 0, 5, 5, 1, 2, 3, 4] }, texts: false, unions: false, limits: true, max_depth: 1 };
+            // the new annotations get their handles in the order of the rows: TEXT levels that start
+            // with RELATION are left out (the order of related_text() results is not modelled)
+            fn rel_first(q: &Q) -> bool {
+                (q.rt == 5 && matches!(q.cs.first(), Some(Cst::Rel(..)))) || q.sub.as_ref().map(|s| rel_first(s)).unwrap_or(false)
+            }
             let mut outer = Vec::new();
-            let sub = gen_query(&mut rng, &acfg, &mut outer, 0);
+            let mut sub = gen_query(&mut rng, &acfg, &mut outer, 0);
+            for _ in 0..20 {
+                if !rel_first(&sub) {
+                    break;
+                }
+                outer.clear();
+                sub = gen_query(&mut rng, &acfg, &mut outer, 0);
+            }
+            if rel_first(&sub) {
+                sub.sub = None;
+                sub.cs.clear();
+            }
             let target = if sub.sub.is_some() && rng.chance(1, 2) { 1 } else { 0 };
             let id = if rng.chance(1, 3) { a(rng.below(9) as i64) } else { a(-1) };
             let nd = rng.below(3);
@@ -363,7 +448,21 @@ pub fn generate_queries(out: &mut Out, ctx: &Ctx, tier: &str, seed: u64) {
                 };
                 data.push(l(vec![a(rng.below(4) as i64), a(rng.below(3) as i64), v]));
             }
-            let req = l(vec![a(6), l(ops.clone()), l(vec![id, l(data), a(target), q_sx(&sub)])]);
+            // TARGET ?x OFFSET b e: small begin-aligned cursors, sometimes end-aligned, sometimes beyond the item
+            let off = if with_off {
+                let b = rng.below(3) as i64;
+                let cb = l(vec![a(0), a(b)]);
+                let ce = match rng.below(4) {
+                    0 => l(vec![a(1), a(0)]),
+                    1 => l(vec![a(1), a(-(rng.below(3) as i64))]),
+                    _ => l(vec![a(0), a(b + rng.below(3) as i64)]),
+                };
+                out.count("add_with_offset");
+                l(vec![cb, ce])
+            } else {
+                l(vec![])
+            };
+            let req = l(vec![a(6), l(ops.clone()), l(vec![id, l(data), a(target), q_sx(&sub), off])]);
             let (i2, o, nt) = ctx.exec(&req);
             out.case(&i2, &o, nt, &req);
             out.count("add");
@@ -450,6 +549,6 @@ pub fn generate(out: &mut Out, tier: &str, seed: u64) {
     }
 }
 
-pub const RULE: &str = "Layer 1 - LimitIter: exhaustive over item counts 0..=7 (thorough 12) and all (begin,end) in -9..=9 (thorough -15..=15), plus random larger ones; Handles: union and intersection of every ordered pair of duplicate-free handle lists of length <=3 over 5 handles (thorough <=4 over 6), in every order, followed by contains() probes, plus seeded random lists over up to 24 handles; from_iter/contains/sort on every list. Layers 2/3 - 4000 (thorough 60000) seeded random store histories of the C01 generator (<=12 or <=24 operations, typed values, half of them with removals); per history 3 random SELECT queries from the grammar of the fragment (result types ANNOTATION DATA KEY RESOURCE DATASET TEXT; 0-4 constraints per level out of ID, ANNOTATION, RESOURCE, DATASET, DATA set key, DATA set key op value, VALUE, DATA ?x, KEY ?x, TEXT ?x, RELATION ?x OP, TEXT literal incl. NOCASE with capitals, by id and by variable, normal and AS METADATA/TARGET; UNION of 2-3 branches; LIMIT with bounds -3..4; up to two nested (OPTIONAL) sub-queries referring to the outer variables; text literals drawn from the texts of the store), each in every order of the constraints of the outer level (<=4) and of the sub-query (<=3); every third history gets an annotation over two text selections of one resource (Multi/Composite/Directional) with simple annotations on and around its ranges, and ten queries SELECT ANNOTATION ?p { SELECT ANNOTATION|TEXT ?w WHERE RELATION ?p OP [; RESOURCE r | ANNOTATION ?p] } - one per relation operator, RELATION first and (through the orderings) later; per ordering: rows through STAMQL text, through the constructors and (queries without variables) through the iterator API, compared as sorted rows; every 4th history a DELETE ANNOTATION query and every 4th an ADD ANNOTATION query through query_mut, next to the direct calls, compared through the store observation of C01; DELETE without sub-query. Non-trivial: some row is returned / an annotation is added / removed. distinct = distinct request lines.";
+pub const RULE: &str = "Layer 1 - LimitIter: exhaustive over item counts 0..=7 (thorough 12) and all (begin,end) in -9..=9 (thorough -15..=15), plus random larger ones; Handles: union and intersection of every ordered pair of duplicate-free handle lists of length <=3 over 5 handles (thorough <=4 over 6), in every order, followed by contains() probes, plus seeded random lists over up to 24 handles; from_iter/contains/sort on every list. Layers 2/3 - 4000 (thorough 60000) seeded random store histories of the C01 generator (<=12 or <=24 operations, typed values, half of them with removals); per history 3 random SELECT queries from the grammar of the fragment (result types ANNOTATION DATA KEY RESOURCE DATASET TEXT; 0-4 constraints per level out of ID, ANNOTATION, RESOURCE, DATASET, DATA set key, DATA set key op value, VALUE, DATA ?x, KEY ?x, TEXT ?x, RELATION ?x OP, TEXT literal incl. NOCASE with capitals, by id and by variable, normal and AS METADATA/TARGET; UNION of 2-3 branches; LIMIT with bounds -3..4; up to two nested (OPTIONAL) sub-queries referring to the outer variables; text literals drawn from the texts of the store), each in every order of the constraints of the outer level (<=4) and of the sub-query (<=3); every third history gets an annotation over two text selections of one resource (Multi/Composite/Directional) with simple annotations on and around its ranges, and ten queries SELECT ANNOTATION ?p { SELECT ANNOTATION|TEXT ?w WHERE RELATION ?p OP [; RESOURCE r | ANNOTATION ?p] } - one per relation operator, RELATION first and (through the orderings) later; per ordering: rows through STAMQL text, through the constructors and (queries without variables) through the iterator API, compared as sorted rows; every third history gets annotations on text with capitals (ASCII and non-ASCII) and TEXT AS NOCASE queries with the literal in another case, first and later; every 4th history a DELETE ANNOTATION query (also over nested selects, the deleted variable bound by the outer or the inner one) and every 4th an ADD ANNOTATION query (half of them TARGET ?x OFFSET b e on TEXT / ANNOTATION variables, begin- and end-aligned, also out of range) through query_mut, next to the direct calls, compared through the store observation of C01; DELETE without sub-query. Non-trivial: some row is returned / an annotation is added / removed. distinct = distinct request lines.";
 
 pub const EXHAUSTIVE: bool = true;
